@@ -270,3 +270,57 @@ func vfH_C03_socks5() {
 	vfrt.Assert(bytes.Equal(rest, down), "socks5/bytes-behind-the-socks-reply-reach-the-client")
 	vfrt.Assert(client.Closed >= 1 && upstream.Closed >= 1, "socks5/both-sockets-closed")
 }
+
+//vf:assume C03-handler: the proxy used as an http.Handler (NewHTTPProxyHandler / Proxy.Handler): an HTTP/1 CONNECT whose head was read by the server together with 0..3 symbolic early bytes; the ResponseWriter can be hijacked (as net/http's can) and hands over the buffered reader; the target sends 0..3 symbolic bytes; HTTP/2 requests to the handler are outside
+
+type vfHijackWriter struct {
+	conn   *martian.VfConn
+	brw    *bufio.ReadWriter
+	header http.Header
+	status int
+}
+
+func (w *vfHijackWriter) Header() http.Header         { return w.header }
+func (w *vfHijackWriter) Write(p []byte) (int, error) { return w.conn.Write(p) }
+func (w *vfHijackWriter) WriteHeader(code int)        { w.status = code }
+func (w *vfHijackWriter) Hijack() (net.Conn, *bufio.ReadWriter, error) {
+	return w.conn, w.brw, nil
+}
+
+//vf:harness property=C03 nopanic reach=handler-tunnel,handler-early-data steps=8000000
+func vfH_C03_handler() {
+	cfg := HTTPProxyConfig{}
+	cfg.Name = "fw"
+	cfg.ProxyLocalhost = AllowProxyLocalhost
+	hp := vfNewHTTPProxy(cfg)
+	up := vfrt.Bytes("client-payload", vfrt.Choice("client-len", 4))
+	down := vfrt.Bytes("target-payload", vfrt.Choice("target-len", 4))
+	target := martian.NewVfConn(down)
+	hp.proxy.DialContext = func(context.Context, string, string) (net.Conn, error) { return target, nil }
+	client := martian.NewVfConn(append([]byte("CONNECT example.com:443 HTTP/1.1\r\nHost: example.com:443\r\n\r\n"), up...))
+	brw := bufio.NewReadWriter(bufio.NewReader(client), bufio.NewWriter(client))
+	req, err := http.ReadRequest(brw.Reader) // what net/http's server does before calling the handler
+	vfrt.Assert(err == nil, "handler/request-read")
+	if err != nil {
+		return
+	}
+	req.RemoteAddr = "192.0.2.1:5555"
+	vfrt.Reach("handler-tunnel")
+	if len(up) > 0 {
+		vfrt.Reach("handler-early-data")
+	}
+	hp.proxy.Handler().ServeHTTP(&vfHijackWriter{conn: client, brw: brw, header: http.Header{}}, req)
+
+	vfrt.Assert(bytes.Equal(target.Out.Bytes(), up), "handler/client-bytes-reach-target-exactly-once-in-order")
+	br := bufio.NewReader(bytes.NewReader(client.Out.Bytes()))
+	res, rerr := http.ReadResponse(br, &http.Request{Method: "CONNECT"})
+	vfrt.Assert(rerr == nil && res.StatusCode == 200, "handler/2xx-reply-first")
+	if rerr != nil {
+		return
+	}
+	rest := make([]byte, br.Buffered())
+	br.Read(rest)
+	vfrt.Assert(bytes.Equal(rest, down), "handler/target-bytes-reach-client-exactly-once-in-order")
+	vfrt.Assert(target.WriteClosed == 1 && target.OutAtCloseWrite == len(up), "handler/end-of-stream-after-the-last-byte")
+	vfrt.Assert(client.Closed >= 1 && target.Closed >= 1, "handler/both-sockets-closed")
+}
